@@ -47,6 +47,8 @@ def histories(tier, rng):
             elif r < 0.92 and cs:
                 d = story_send(20 + j, rng.choice(cs), body=[p(rng.choice(SPECIAL)), E('storyItem', E('itemID', text='q%d' % j), E('itemSlug', text=rng.choice(SPECIAL)))],
                                pre=[E('storySlug', text=(rng.choice(SPECIAL) + (CR if cr else '')))])
+                if rng.random() < 0.5:
+                    d[3].find('storyBody').set('Read1stMEMasBody', 'true')
             elif r < 0.96:
                 d = ro_delete(20 + j)
             else:
@@ -118,9 +120,14 @@ class Check:
                 n += 1
                 cls = type(m).__name__
                 sigs.add((cls, err))
-                tree = X.elem_to_tree(ro.xml)
-                text = str(ro)
                 case = {'kind': 'hist', 'ro': c['ro'], 'msgs': c['msgs'][:k + 1]}
+                try:
+                    tree = X.elem_to_tree(ro.xml)
+                    text = str(ro)
+                except Exception as e:
+                    vio.append({'what': 'after step %d (%s) the running order cannot be serialised: %s' % (k, cls, type(e).__name__),
+                                'case': case, 'cr': False, 'impl': type(e).__name__, 'expected': 'well-formed XML'})
+                    break
                 cr = has_cr(tree)
                 what = None
                 try:
@@ -187,7 +194,10 @@ class Check:
                     ro += m
                 except Exception:
                     pass
-        text = str(ro)
+        try:
+            text = str(ro)
+        except Exception as e:
+            return {'violation': True, 'what': 'the running order cannot be serialised: ' + type(e).__name__}
         try:
             back = RunningOrder.from_string(text)
             bad = str(back) != text or live_view(ro) != live_view(back)
